@@ -70,10 +70,11 @@ CHECKS["C03"] = {
     "level_note": SIM_NOTE + "; 'eventually delivers' is modelled by the closure's fair schedule",
 }
 CHECKS["C04"] = {
-    "subs": [{"pkg": "sim", "test": "TestC04", "quick": 6000, "thorough": 150000, "shards_quick": 8, "shards_thorough": 16, "timeout_thorough": 7200}],
+    "subs": [{"pkg": "sim", "test": "TestC04", "quick": 6000, "thorough": 150000, "shards_quick": 8, "shards_thorough": 16, "timeout_thorough": 7200},
+             {"pkg": "sim", "test": "TestC04Window", "quick": 400, "thorough": 20000, "shards_quick": 4, "shards_thorough": 16, "timeout_quick": 600, "timeout_thorough": 3600}],
     "engine": "SIM",
     "level_text": "Simulated histories composing the real gossip state, syncer, cluster state and upstream manager; whenever an observer has caught up with an owner its routing table must mirror the owner's advertisement exactly, and every lookup must return an active, advertising remote node. Exploration only.",
-    "technique": "stateful PBT (rapid), oracle = owner's own cluster state at equal versions",
+    "technique": "stateful PBT (rapid), oracle = owner's own cluster state at equal versions; schedule-owning overlap of two operations with a sequential-order (linearizability) oracle",
     "level_note": SIM_NOTE,
 }
 CHECKS["C11"] = {
@@ -215,11 +216,12 @@ CHECKS["C19"] = {
 CHECKS["C20"] = {
     "subs": [
         {"pkg": "sim", "test": "TestC20Program", "race": True, "quick": 600, "thorough": 12000, "shards_quick": 8, "shards_thorough": 16, "timeout_quick": 900, "timeout_thorough": 7200},
+        {"pkg": "sim", "test": "TestC20Window", "race": True, "quick": 400, "thorough": 20000, "shards_quick": 4, "shards_thorough": 16, "timeout_quick": 600, "timeout_thorough": 3600},
         {"pkg": "sys", "test": "TestC20Churn", "race": True, "quick": 2, "thorough": 48, "shards_quick": 2, "shards_thorough": 8, "timeout_quick": 900, "timeout_thorough": 7200},
     ],
     "engine": "SIM+SYS (-race)",
     "level_text": "Generated concurrent programs over one real node stack and generated churn on real clusters, both built with the race detector: the detector reports unsynchronised access from happens-before (without needing the bad interleaving), a watchdog catches deadlocks, and at quiescence registry, routing table and gossip state must agree. Exploration only; interleavings are sampled.",
-    "technique": "PBT-generated concurrent programs under the Go race detector + quiescence invariants",
+    "technique": "PBT-generated concurrent programs under the Go race detector + quiescence invariants; schedule-owning overlap of two operations at call-outs with a sequential-order (linearizability) oracle",
     "level_note": "absence of a race on paths the generated programs do not execute is not shown",
 }
 
